@@ -64,6 +64,13 @@ def run(repo, rep, tier):
     no_memoised_repository_reads(repo, rep)
     adapters_forward_every_filter(repo, rep)
     results_are_stamped_on_copies(repo, rep)
+    # the Open/Pull variants can be continued: each Open registers its
+    # context under the pull kind DSP0200 pairs it with
+    from .c14 import pull_kinds_rule
+    pull_kinds_rule(repo, rep, rep.rule(
+        'C13.R12', 'an Open...() result can be continued by its Pull '
+        'operation (pull kinds map 1:1)'),
+        repo.cls('pywbem_mock/_mainprovider.py', 'MainProvider'))
     from .c11 import write_loops_are_duplicate_free
     write_loops_are_duplicate_free(repo, rep, 'C13.R11')
     adapter_keys_agree(repo, rep, 'C13.R10', lambda op: 'Associator' in op or 'Reference' in op, 30)
@@ -703,21 +710,23 @@ def no_memoised_repository_reads(repo, rep):
         raise AnalysisError('C13.R6 recogniser broken')
 
 
-def adapters_forward_every_filter(repo, rep):
-    """C13.R7: the server-side adapters of the association operations
-    (_imeth_[Open]Associator*/Reference*) hand every parameter of the
-    provider method on.  A filter that the adapter drops (ResultRole,
-    Role, AssocClass, ResultClass) takes the provider's default None, so
-    that one variant ignores the filter while its siblings apply it: names
-    and full results, traditional and Open/Iter results disagree."""
+def adapters_forward_every_filter(repo, rep, rid='C13.R7',
+                                  select=lambda n: 'Associator' in n or
+                                  'Reference' in n, floor=8):
+    """C13.R7 (also C14.R16 for the Open/Pull/Close adapters): the
+    server-side adapters (_imeth_...) hand every parameter of the provider
+    method on.  A parameter that the adapter drops (ResultRole, Role,
+    AssocClass, ResultClass, MaxObjectCount, ...) takes the provider's
+    default None, so that one variant ignores what the client sent while
+    its siblings apply it: names and full results, traditional and
+    Open/Iter results disagree, or a response carries more objects than
+    MaxObjectCount."""
     MOCKF = 'pywbem_mock/_wbemconnection_mock.py'
-    r7 = rep.rule('C13.R7', 'association adapters pass every provider '
-                  'parameter on')
+    r7 = rep.rule(rid, 'adapters pass every provider parameter on')
     mock = repo.cls(MOCKF, 'FakedWBEMConnection')
     mp = repo.cls(MAIN, 'MainProvider')
     for n, f in sorted(mock.methods.items()):
-        if not n.startswith('_imeth_') or not (
-                'Associator' in n or 'Reference' in n):
+        if not n.startswith('_imeth_') or not select(n):
             continue
         op = n[len('_imeth_'):]
         pm = mp.find_method(op)
@@ -747,9 +756,8 @@ def adapters_forward_every_filter(repo, rep):
                         'so this operation ignores what the client sent '
                         'while the sibling operations apply it'
                         % (', '.join(missing), op))
-    if r7.sites < 8:
-        raise AnalysisError('C13.R7: only %d association adapters'
-                            % r7.sites)
+    if r7.sites < floor:
+        raise AnalysisError('%s: only %d adapters' % (rid, r7.sites))
 
 
 def results_are_stamped_on_copies(repo, rep):
